@@ -424,7 +424,13 @@ impl<L: Localize> TimeDomainIterator<L> {
 
         while self.curr_schedule.peek().map(|tr| tr.kind) == Some(curr_kind) {
             if let Some(max_interval_size) = self.opening_hours.ctx.approx_bound_interval_size {
-                if self.curr_date - start_date > max_interval_size + chrono::TimeDelta::days(1) {
+                // A negative bound would stop before anything is consumed and a huge one would
+                // overflow when the extra day is added.
+                let max_interval_size = std::cmp::max(max_interval_size, chrono::TimeDelta::zero())
+                    .checked_add(&chrono::TimeDelta::days(1))
+                    .unwrap_or(chrono::TimeDelta::MAX);
+
+                if self.curr_date - start_date > max_interval_size {
                     return;
                 }
             }
